@@ -249,7 +249,8 @@ class FetchAttribute(Parseable[bytes]):
             -> tuple[Section, memoryview]:
         match = cls._sec_part_pattern.match(buf)
         if match:
-            section_parts = [int(num) for num in match.group(1).split(b'.')]
+            section_parts = [cls._parse_int(num, buf)
+                             for num in match.group(1).split(b'.')]
             buf = buf[match.end(0):]
         else:
             section_parts = []
@@ -315,7 +316,8 @@ class FetchAttribute(Parseable[bytes]):
         if match:
             if attr == b'BINARY.SIZE':
                 raise NotParseable(buf)
-            start, length = int(match.group(1)), int(match.group(2))
+            start = cls._parse_int(match.group(1), buf)
+            length = cls._parse_int(match.group(2), buf)
             if start < 0 or length <= 0:
                 raise NotParseable(buf)
             partial = FetchPartial(start, length)
